@@ -132,30 +132,51 @@ func (tr *fnTrans) queryText2(o *Obligation, wantModel bool, relaxed bool) strin
 	if wantModel {
 		sb.WriteString("(get-model)\n")
 	}
-	// boxing functions (interface <-> concrete value) are declared only when the query mentions them: the set of
-	// boxes ever created depends on which other functions were translated, and a query must not
+	// Global declarations (struct/opaque/map sorts, boxing functions) are created on demand while ANY function is
+	// translated.  A query gets only those it needs - the ones whose declared symbols occur in its text, closed under
+	// the symbols the included declarations mention themselves - so that its text does not depend on which other
+	// functions happened to be translated in the same run.
 	body := sb.String()
-	var od strings.Builder
-	for _, d := range v.opaqueDecls {
-		if strings.HasPrefix(d, "(declare-fun box_") {
-			name := d[len("(declare-fun "):]
-			name = name[:strings.IndexAny(name, " ")]
-			if !strings.Contains(body, name) && !strings.Contains(body, "is_"+strings.TrimPrefix(name, "box_")) {
-				continue
-			}
-		}
-		if strings.HasPrefix(d, "(declare-sort M_") || strings.HasPrefix(d, "(declare-sort I_") {
-			name := d[len("(declare-sort "):]
-			name = name[:strings.IndexAny(name, " ")]
-			used := strings.Contains(body, name)
-			for _, d2 := range v.opaqueDecls {
-				if d2 != d && strings.Contains(d2, name) {
-					used = true // e.g. a field of a struct sort
+	declNames := func(d string) []string {
+		var names []string
+		for _, kw := range []string{"(declare-sort ", "(declare-datatypes ((", "(declare-fun ", "(declare-const ", "(define-fun "} {
+			rest := d
+			for {
+				k := strings.Index(rest, kw)
+				if k < 0 {
+					break
+				}
+				rest = rest[k+len(kw):]
+				e := strings.IndexAny(rest, " )\n")
+				if e > 0 {
+					names = append(names, rest[:e])
 				}
 			}
-			if !used {
-				continue // a map / interface sort created for some other function
+		}
+		return names
+	}
+	included := make([]bool, len(v.opaqueDecls))
+	text := body
+	for changed := true; changed; {
+		changed = false
+		for k, d := range v.opaqueDecls {
+			if included[k] {
+				continue
 			}
+			for _, n := range declNames(d) {
+				if strings.Contains(text, n) {
+					included[k] = true
+					text += d
+					changed = true
+					break
+				}
+			}
+		}
+	}
+	var od strings.Builder
+	for k, d := range v.opaqueDecls {
+		if !included[k] {
+			continue
 		}
 		if relaxed {
 			d = stripQuantified(d)
